@@ -91,11 +91,12 @@ func (r *DeviceLocal) HandleEvent(payload api.EventPayload) {
 	//revive:disable-next-line
 	switch payload.Data.(type) {
 	case *model.NodeManagementDetailedDiscoveryDataType:
-		address := payload.Feature.Address()
+		// use a copy, the address of the feature is used elsewhere and must not be modified
+		address := *payload.Feature.Address()
 		if address.Device == nil {
 			address.Device = remoteDevice.Address()
 		}
-		_, _ = r.nodeManagement.SubscribeToRemote(address)
+		_, _ = r.nodeManagement.SubscribeToRemote(&address)
 
 		// Request Use Case Data
 		_, _ = r.nodeManagement.RequestUseCaseData(payload.Device.Ski(), remoteDevice.Address(), payload.Device.Sender())
